@@ -193,6 +193,7 @@ PROPS = {
         "level_note": "Trusted: Coq kernel, extraction + OCaml driver, Go harness. The snapshot (entry sizes and order) comes from the OS and is an input of the model; UnpackDir correctness is C01. Print Assumptions: closed under the global context.",
     },
     "C03": {
+        "gen": ["consts", "shape"],
         "clauses": ["C03"],
         "modes": [{"name": "srvconc", "harness": "srvconc", "modelcheck": "conc"},
                   {"name": "srvbuf", "harness": "srvconc", "modelcheck": "bufref", "args": ["buf"]}],
@@ -201,6 +202,7 @@ PROPS = {
         "level_note": "Trusted: Coq kernel; extraction + OCaml driver; the Go harness: the translation of the library's schedule points (verifPoint hooks, logged under one mutex inside the library's own critical sections) into LTS labels, the scripted implementation, the fake transport. The LTS over-approximates call/return of nested Respond calls (every real schedule is a schedule of the LTS); mutex atomicity, channel FIFO/rendezvous and goroutine semantics of the Go runtime are assumed; the fid table and message contents are abstracted (C04/C05 and content ids); reply-buffer recycling between requests is exercised by the harness only. Print Assumptions: closed under the global context.",
     },
     "C07": {
+        "gen": ["consts", "shape"],
         "clauses": ["C07"],
         "modes": [{"name": "srvconc", "harness": "srvconc", "modelcheck": "conc"}],
         "rule": "Tflush arriving at every stage of the target's life: in the same segment as the target (before it starts), while it is blocked in the implementation (with and without FlushOp, implementation agreeing to cancel or not), while the implementation answers concurrently, after the reply, unknown tag, flush of a flush and two flushes of one request, a Tflush naming itself / two naming each other (known finding); Maxpend 0/1/4. Replay of the schedule-point trace through the LTS plus oracle on the real wire: every Tflush answered once, the target's reply never after the Rflush, and when no reply preceded the Rflush the target is not handed to the implementation afterwards. Non-trivial: >= 3 requests; distinct by content.",
@@ -216,6 +218,7 @@ PROPS = {
         "level_note": "Trusted: Coq kernel; extraction + OCaml driver; the Go harness: the translation of the library's schedule points (verifPoint hooks, logged under one mutex inside the library's own critical sections) into LTS labels, the scripted implementation, the fake transport. The LTS over-approximates call/return of nested Respond calls (every real schedule is a schedule of the LTS); mutex atomicity, channel FIFO/rendezvous and goroutine semantics of the Go runtime are assumed; the fid table and message contents are abstracted (C04/C05 and content ids); reply-buffer recycling between requests is exercised by the harness only. Print Assumptions: closed under the global context. Scheduler fairness and transport progress (the send goroutine gets to run, the peer reads) are assumed; several connections share no state in the model (one LTS per connection).",
     },
     "C11": {
+        "gen": ["consts", "shape"],
         "clauses": ["C11"],
         "modes": [{"name": "srvconc", "harness": "srvconc", "modelcheck": "conc"},
                   {"name": "fidlife", "harness": "fidlife", "modelcheck": "fidref", "timeout": {"quick": 900, "thorough": 3000}},
@@ -242,6 +245,7 @@ PROPS = {
         "level_note": "Trusted: Coq kernel; translator for error texts/numbers, IOHDRSZ/MSIZE/NOFID/NOUID and the QT*/DM*/O* bits; extraction + OCaml driver; the Go harness (scripted implementation, net.Pipe transport). One request at a time (the concurrent life cycle is C03/C07/C08/C11); the user database is the default OsUsers; the implementation is an arbitrary input (script) answering with the matching R-message or an error; the reply buffer is modelled by its capacity. Print Assumptions: closed under the global context.",
     },
     "C12": {
+        "gen": ["consts", "shape"],
         "clauses": ["C12"],
         "modes": [{"name": "srvseq-version", "harness": "srvseq", "modelcheck": "srvseq", "args": ["version"]},
                   {"name": "srvseq-random", "harness": "srvseq", "modelcheck": "srvseq", "args": ["random"]}],
@@ -258,6 +262,7 @@ PROPS = {
         "level_note": "Trusted: Coq kernel; translator (NOTAG, reqchan capacity 16); extraction + OCaml driver; Go harness. The tie is a correspondence on outcomes through a canonical schedule (the client has no schedule-point replay, unlike the server); frame contents are abstracted to (tag, kind); Fcall buffer recycling (tchan) is not modelled. Print Assumptions: closed under the global context.",
     },
     "C10": {
+        "gen": ["consts", "shape"],
         "clauses": ["C10"],
         "modes": [{"name": "clnt", "harness": "clnt", "modelcheck": "clnt"},
                   {"name": "clntlog", "harness": "clntlog", "modelcheck": "clntref"}],
@@ -296,6 +301,7 @@ PROPS = {
         "assumptions": ["net.Conn.Read returns between 1 and len(p) bytes of the stream in order"],
     },
     "C06": {
+        "gen": ["consts", "shape"],
         "clauses": ["C06"],
         "modes": [{"name": "crash", "harness": "crash", "modelcheck": None, "timeout": {"quick": 900, "thorough": 3400}},
                   {"name": "srvseq-random", "harness": "srvseq", "modelcheck": "srvseq", "args": ["random"]}],
